@@ -45,7 +45,7 @@ func (gn *generator) leafRune() *Expr {
 // syntactic nullability used while generating (nonterminal bodies are not known yet: assume nullable)
 func synNullable(e *Expr) bool {
 	switch e.Op {
-	case OpRune, OpKw, OpStr:
+	case OpRune, OpKw, OpStr, OpLit:
 		return false
 	case OpEmpty, OpOpt, OpMany, OpSepBy, OpNT, OpEnd, OpMark:
 		return true
@@ -384,6 +384,87 @@ func StrGrammar(r *rand.Rand) *Grammar {
 	return g
 }
 
+// TypedGrammar generates token-level grammars over the library's TYPED terminals (OpLit: integer, float, bool, nil, char,
+// time duration, word, regexp) and punctuation, every token trimmed one way or another: pairs and lists, a
+// left-recursive list, and one literal consumed by differently trimmed alternatives at one position. With refOnly every
+// RightTrim is the never-failing mode around the literal itself (the shapes the reference semantics models); without,
+// RightTrim takes any mode and also wraps a reference to the MEMOIZED literal (the cached node is the one it moves).
+func TypedGrammar(r *rand.Rand, refOnly bool, trims bool) *Grammar {
+	g := New("nil1.5;,= \n'xs9-", 2)
+	lit := func() *Expr { e := g.Mk(OpLit); e.C = byte(r.Intn(len(LitKinds))); return e }
+	p := func() *Expr { return g.Rune(";,="[r.Intn(3)]) }
+	lt := func(e *Expr) *Expr { w := g.Mk(OpLTrim, e); w.C = byte(r.Intn(4)); return w }
+	rt := func(e *Expr) *Expr {
+		w := g.Mk(OpRTrim, e)
+		w.C = 2
+		if !refOnly {
+			w.C = byte(r.Intn(4))
+		}
+		return w
+	}
+	tok := func(e *Expr) *Expr {
+		if !trims {
+			return e
+		}
+		switch r.Intn(6) {
+		case 0:
+			return e
+		case 1:
+			return lt(e)
+		case 2, 3:
+			return rt(e)
+		case 4:
+			return lt(rt(e))
+		default:
+			return rt(lt(e))
+		}
+	}
+	shape := r.Intn(3)
+	if !trims {
+		shape = r.Intn(2) // the third shape is about trimming
+	}
+	switch shape {
+	case 0: // pairs and lists
+		g.NTs[1] = g.Mk(OpAny, g.Mk(OpSeqOf, tok(lit()), tok(p()), tok(lit())), tok(lit()))
+		g.NTs[0] = g.Mk(OpSepBy1, g.Ref(1), tok(g.Rune(',')))
+	case 1: // a left-recursive list of literals
+		g.NTs[1] = tok(lit())
+		if r.Intn(2) == 0 {
+			g.NTs[1] = g.Mk(OpAny, tok(lit()), tok(lit()))
+		}
+		g.NTs[0] = g.Mk(OpAny, g.Mk(OpSeqOf, g.Ref(0), tok(p()), g.Ref(1)), g.Ref(1))
+	default: // one literal, consumed by differently trimmed alternatives at one position
+		l := lit()
+		g.NTs[1] = l
+		same := func() *Expr {
+			if refOnly {
+				c := g.Mk(OpLit)
+				c.C = l.C
+				return c
+			}
+			return g.Ref(1)
+		}
+		var alts []*Expr
+		for i, n := 0, 2+r.Intn(3); i < n; i++ {
+			var first *Expr
+			switch r.Intn(4) {
+			case 0:
+				first = same()
+			case 1:
+				first = lt(same())
+			default:
+				first = rt(same())
+			}
+			alts = append(alts, g.Mk(OpSeqOf, first, p()))
+		}
+		g.NTs[0] = g.Mk(OpAny, alts...)
+		if r.Intn(2) == 0 {
+			g.NTs[0] = g.Mk(OpMany1, g.Mk(OpAny, alts...))
+		}
+	}
+	return g
+}
+
 // TrimSeq generates token-level grammars in which trimming meets optional and alternative tokens: a sequence of
 // elements, each a rune, an optional rune, a left-trimmed (any mode) or right-trimmed (never-failing mode) one, or an
 // Any of differently trimmed optional / plain alternatives - so that one result list holds empty matches and tokens
@@ -481,6 +562,10 @@ func (g *Grammar) Sample(r *rand.Rand, e *Expr, depth int, out *[]byte, maxLen i
 		return true
 	case OpStr:
 		*out = append(*out, StrLiterals[r.Intn(len(StrLiterals))]...)
+		return true
+	case OpLit:
+		pool := LitKinds[e.C].Pool
+		*out = append(*out, pool[r.Intn(len(pool))]...)
 		return true
 	case OpEmpty, OpEnd, OpMark:
 		return true
